@@ -80,6 +80,13 @@ def pool(rng, scratch):
     items.append(("numeric-pole-pow", {"text": H + "Op(0.0 ** -1) | 0\n"}))
     items.append(("numeric-overflow", {"text": H + "Op(exp(1000), 1e200 * 1e200) | 0\n"}))
     items.append(("numeric-invalid", {"text": H + "Op(sqrt(-1), arcsin(2)) | 0\n"}))
+    # names of the implementation's own namespaces used as Blackbird identifiers: a template parameter, variable or loop variable
+    # called np, sym, Symbol, copy, ... must stay a Blackbird name and leave the modules that evaluate later scripts alone
+    for nm in module_names():
+        items.append(("ns-template-%s" % nm, {"text": H + "Sgate({%s}, 0.1) | 0\nRgate(2 * {%s} + 1) | 1\n" % (nm, nm)}))
+        items.append(("ns-variable-%s" % nm, {"text": H + "float %s = 0.5\nfor int i in 0:2\n    Sgate(%s * i) | i\n" % (nm, nm)}))
+        items.append(("ns-regarg-%s" % nm, {"text": H + "MeasureX | 0\nZgate(q0 * 2, %s=q0 + 1) | 1\n" % nm}))
+    items.append(("ns-arith", {"text": H + "float u = 2 ** 3 / 4 - 1\nOp(sin(u) + pi, sqrt(2) * u, -u) | 0\nMeasureX | 0\nZgate(2 * q0 + 1) | 1\nSgate({w} / 3 - 1) | 2\n"}))
     items.append(("op-named-like-include", {"text": H + "Sub(x=1) | [0, 1]\nsub(a=1) | [2, 3]\n"}))
     for i in range(10):
         g = Gen(rng, allow_params=(i % 2 == 0))
@@ -88,6 +95,24 @@ def pool(rng, scratch):
         except Exception:  # noqa: BLE001
             pass
     return items
+
+
+def module_names():
+    """module-level names of the package's modules that are also valid Blackbird identifiers"""
+    import importlib
+    import re
+    import sys
+    for mn in ("blackbird", "blackbird.auxiliary", "blackbird.listener", "blackbird.program", "blackbird.utils", "blackbird.error"):
+        importlib.import_module(mn)
+    out = set()
+    for mn, mod in list(sys.modules.items()):
+        if mn == "blackbird" or mn.startswith("blackbird.") and not mn.endswith(("Lexer", "Parser", "Listener", "tests")):
+            out |= {k for k in vars(mod) if re.fullmatch(r"[A-Za-z][A-Za-z0-9_]*", k)}
+    reserved = {"name", "version", "target", "type", "include", "for", "in", "pi", "array", "float", "complex", "int", "str", "bool", "True", "False",
+                "sqrt", "sin", "cos", "tan", "exp", "log"}
+    pref = ["np", "sym", "Symbol", "var", "os", "re", "copy", "antlr4", "nx", "math", "sys"]
+    names = [n for n in pref if n in out] + sorted(n for n in out - set(pref) - reserved if len(n) <= 22 and not re.fullmatch(r"q\d+", n))
+    return names[:14]
 
 
 def strip(o):
@@ -130,6 +155,12 @@ def run(tier, seed):
                 hists.append([a, b])
                 if a is not b:
                     hists.append([a, b, a])
+        # ... a script that uses a name of the implementation's own namespace, then scripts that compute
+        ns = [it for it in items if it[0].startswith("ns-") and it[0] != "ns-arith"]
+        arith = [it for it in items if it[0] in ("ns-arith", "numeric-division", "regref-c")]
+        for a in ns:
+            for b in arith:
+                hists.append([a, b])
         # ... and among the scripts that fail in the lexer/parser (plus one valid script and one failing later)
         syn = [it for it in items if it[0].startswith("syntax-error")] + [it for it in items if it[0] in ("binds-n", "fails-after-binding-n")]
         for a in syn:
